@@ -219,6 +219,22 @@ def join_blocks(
             assert not block1.size
             alignment_data[block1] = block2_align
 
+    # Tables that describe a block as a whole: block2 is going away, so it
+    # must not stay behind as a key. If block1 is empty, the joined block is
+    # block2's content and inherits its entries.
+    if isinstance(block2, gtirb.DataBlock):
+        whole_block_tables = (_auxdata.types, _auxdata.encodings)
+    else:
+        whole_block_tables = (_auxdata.profile, _auxdata.sccs)
+    for table_def in whole_block_tables:
+        whole_block_data = table_def.get(module)
+        if whole_block_data:
+            if not block1.size:
+                whole_block_data.pop(block1, None)
+                if block2 in whole_block_data:
+                    whole_block_data[block1] = whole_block_data[block2]
+            whole_block_data.pop(block2, None)
+
     block1.size = block1.size + block2.size
     cache.block_ordering[block2.section].remove_block(block2)
     block2.byte_interval = None
